@@ -49,6 +49,9 @@ def gen_py(rng):
         return ["str", rng.choice(["", "a", "0", "true", " x ", "é\U0001F600", "line\nbreak", "1e3"])]
     tzmin = rng.choice([None, None, 0, 60, -300, 330, 840, -840, 59, -1, rng.randint(-840, 840)])
     us = rng.choice([0, 0, 1, 500000, 999999, 120000])
+    if k < 0.58:
+        # a date given together with the datatype xsd:gYear / xsd:gYearMonth (documented: the year, or year and month, of the date)
+        return [rng.choice(["date-gYear", "date-gYearMonth"]), rng.choice([1, 33, 999, 1000, 9999, 2000, rng.randint(1, 9999)]), rng.randint(1, 12), rng.randint(1, 28)]
     if k < 0.64:
         return ["date", rng.choice([1, 9999, 2000, 1900, rng.randint(1, 9999)]), rng.randint(1, 12), rng.randint(1, 28)]
     if k < 0.72:
@@ -81,6 +84,20 @@ def run_py(case, st=None):
     st = st if st is not None else {}
     enc = case["v"]
     k = enc[0]
+    if k in ("date-gYear", "date-gYearMonth"):
+        dname = k.split("-")[1]
+        v = dt.date(enc[1], enc[2], enc[3])
+        try:
+            L = Literal(v, datatype=URIRef(XS + dname))
+        except Exception as ex:
+            return ("py-raises", "Literal(%r, datatype=xsd:%s) raised %s: %s" % (v, dname, type(ex).__name__, ex))
+        st["py:" + k] = st.get("py:" + k, 0) + 1
+        want_lex = "%04d" % enc[1] if dname == "gYear" else "%04d-%02d" % (enc[1], enc[2])
+        st["py-lexical-valid"] = st.get("py-lexical-valid", 0) + 1
+        if str(L) != want_lex:
+            return ("py-lexical", "Literal(%r, datatype=xsd:%s) has lexical form %r; the %s of that date is written %r (at least four year digits)" % (v, dname, str(L), dname, want_lex))
+        st["_nontrivial"] = 1
+        return None
     v = build_py(enc)
     try:
         if k == "bytes-hex": L = Literal(v, datatype=URIRef(XS + "hexBinary")); want = "hexBinary"
